@@ -793,6 +793,10 @@ impl<'cmd> Parser<'cmd> {
             Some((long_arg, arg))
         } else if self.cmd.is_infer_long_args_set() {
             let mut iter = self.cmd.get_arguments().filter_map(|a| {
+                // positionals have no long keys (their aliases are never registered)
+                if a.is_positional() {
+                    return None;
+                }
                 if let Some(long) = a.get_long() {
                     if long.starts_with(long_arg) {
                         return Some((long, a));
